@@ -62,7 +62,7 @@ func (u *unaryNegation) loadSeries(ctx context.Context) error {
 	// Dropping the metric name can make two series indistinguishable. The
 	// Prometheus engine negates a whole matrix at once and rejects equal
 	// labels even when the samples lie at different steps.
-	u.duplicates = model.NewDuplicateLabelCheckAcrossSteps(u.series)
+	u.duplicates = model.NewDuplicateLabelCheckAcrossStepsOf(u.series, vectorSeries)
 
 	u.workers.Start(ctx)
 	return nil
